@@ -110,7 +110,7 @@ func init() {
 			}
 			return shardsOfSketchSpecs(specs)
 		},
-		ShardBudget: budget(70*time.Second, 12*time.Minute),
+		ShardBudget: budget(240*time.Second, 12*time.Minute),
 	})
 
 	mc.Register(&mc.Property{
@@ -184,7 +184,7 @@ func init() {
 			}
 			return shardsOfSketchSpecs(specs)
 		},
-		ShardBudget: budget(70*time.Second, 12*time.Minute),
+		ShardBudget: budget(240*time.Second, 12*time.Minute),
 	})
 
 	mc.Register(&mc.Property{
@@ -237,7 +237,7 @@ func init() {
 			}
 			return shardsOfSketchSpecs(specs)
 		},
-		ShardBudget: budget(70*time.Second, 12*time.Minute),
+		ShardBudget: budget(240*time.Second, 12*time.Minute),
 	})
 }
 
